@@ -151,13 +151,26 @@ def failed_files(build_log):
     return sorted(set(bad))
 
 
+def prop_files(pid):
+    """Props/<pid>.v and Props/<pid>_*.v (a property's theorems may be split over several files)."""
+    d = os.path.join(COQ, "theories", "Props")
+    out = []
+    for fn in sorted(os.listdir(d)):
+        if fn == pid + ".v" or (fn.startswith(pid + "_") and fn.endswith(".v")):
+            out.append(fn[:-2])
+    return out
+
+
 def theorems_of(pid):
-    """Theorem names stated in Props/<pid>.v (the obligations of the property)."""
-    path = os.path.join(COQ, "theories", "Props", pid + ".v")
-    if not os.path.exists(path):
-        return []
-    src = open(path).read()
-    return re.findall(r"^\s*Theorem\s+([A-Za-z0-9_']+)", src, flags=re.M)
+    """Theorem names stated in Props/<pid>.v and Props/<pid>_*.v (the obligations of the property)."""
+    names = []
+    for f in prop_files(pid):
+        src = open(os.path.join(COQ, "theories", "Props", f + ".v")).read()
+        src = re.sub(r"\(\*.*?\*\)", " ", src, flags=re.S)
+        if f != pid and pid == "C08":
+            continue   # C08.v re-states C08_basic / C08_triangle as conjunctions
+        names += re.findall(r"^\s*Theorem\s+([A-Za-z0-9_']+)", src, flags=re.M)
+    return names
 
 
 def print_assumptions(pid, names):
@@ -171,7 +184,9 @@ def print_assumptions(pid, names):
     os.makedirs(d, exist_ok=True)
     f = os.path.join(d, "Assume_%s.v" % pid)
     with open(f, "w") as fh:
-        fh.write("From OPF Require Import Props.%s.\n" % pid)
+        for pf in prop_files(pid):
+            if vo_ok("Props/" + pf):
+                fh.write("From OPF Require Import Props.%s.\n" % pf)
         for n in names:
             fh.write('Goal True. idtac "@@BEGIN %s". Abort.\nPrint Assumptions %s.\n' % (n, n))
         fh.write('Goal True. idtac "@@END". Abort.\n')
@@ -449,7 +464,10 @@ def standard_proof_phase(rep, pid, needed_files, extra_trusted=()):
     for f in needed_files:
         rep.obligation("compiles: %s.v" % f, vo_ok(f), _excerpt(log, f))
     names = theorems_of(pid)
-    if vo_ok("Props/" + pid):
+    for pf in prop_files(pid):
+        if pf != pid:
+            rep.obligation("compiles: Props/%s.v" % pf, vo_ok("Props/" + pf), _excerpt(log, "Props/" + pf))
+    if all(vo_ok("Props/" + pf) for pf in prop_files(pid)):
         ax = print_assumptions(pid, names)
         if ax is None:
             rep.obligation("Print Assumptions loads Props/%s" % pid, False, "coqc failed")
